@@ -774,6 +774,21 @@ Definition fill_ok (s : state) : bool :=
       (forallb (fun c => negb (c_fill_tr c)) (s_cells s)).
 Definition clean (s : state) : bool := andb (imp_cell_ok s) (andb (imp_data_ok s) (fill_ok s)).
 
+(* the structural invariant of histories (Proofs/PlaceProofs.v: run_ops_sstruct): the partition condition, trees
+   that several particles share name exactly them, MODE trees name MODE particles — for the cells of the problem
+   and for the cell that is being built.  [run_Place] reports it for the state right after [read] ("S"). *)
+Definition group_kind_ok (gr : igroup) : bool :=
+  match fst gr with
+  | [] => false
+  | [_] => true
+  | _ => subset (t_parts (snd gr)) (fst gr)
+  end.
+Definition struct_ok (mode : list particle) (c : cell) : bool :=
+  andb (imp_parts_ok (c_imp c)) (andb (forallb group_kind_ok (c_imp c)) (imp_keys_ok mode (c_imp c))).
+Definition sstruct (s : state) : bool :=
+  andb (forallb (struct_ok (s_mode s)) (s_cells s))
+       (match s_scratch s with Some (c, _) => struct_ok (s_mode s) c | None => true end).
+
 (* ------------------------------------------------------------------ wire *)
 Open Scope string_scope.
 Definition sep (c : string) (l : list string) : string := match l with [] => "-" | _ => join c l end.
@@ -938,7 +953,8 @@ Definition run_Place (req : string) : string :=
                    (if f_imp (s_flags s) then "" else
                       (if forallb (fun c => imp_parts_ok (c_imp c)) (s_cells s) then "" else "P")
                       ++ (if forallb (fun c => imp_keys_ok (s_mode s) (c_imp c)) (s_cells s) then "" else "M"))
-                   ++ (if imp_data_ok s then "" else "C") ++ (if fill_ok s then "" else "F") in
+                   ++ (if imp_data_ok s then "" else "C") ++ (if fill_ok s then "" else "F")
+                   ++ (if sstruct s0 then "" else "S") in
                  if String.eqb d "" then "-" else d)
           end
       | _, _, _, _ => "parse:err"
